@@ -258,6 +258,9 @@ def g_xs(rng, hi=30):
 
 
 def g_order(rng):
+    if rng.random() < 0.25:
+        # next to an integer order (the J_v cos - J_-v cancellation in bessely, the limits in besselk)
+        return Fraction(rng.randint(0, 5)) + rng.choice([1, -1]) * Fraction(1, 2 ** rng.choice([10, 12, 20, 30, 40]))
     return rng.choice([Fraction(rng.randint(-6, 8)), gx(rng, -6, 8, 4), gx(rng, 0, 4, 12)])
 
 
